@@ -324,6 +324,8 @@ func compute(lunar *Lunar, lunarYear *LunarYear) {
 	computeDay(lunar)
 	computeTime(lunar)
 	computeWeek(lunar)
+	// created here, not lazily in GetEightChar: a lazy write would race between goroutines reading one shared date
+	lunar.eightChar = NewEightChar(lunar)
 }
 
 // GetGan @Deprecated: 该方法已废弃，请使用GetYearGan
